@@ -68,7 +68,7 @@ class Lexer(object):
 
     @TOKEN(r"[\r\n]+")
     def t_newline(self, t):
-        t.lexer.lineno += len(t.value)
+        t.lexer.lineno += len(t.value.replace("\r\n", "\n"))  # "\r\n" is one line break, not two
 
     def t_error(self, t):
         raise SyntaxError("Illegal character {0} at position {1}".format(t.value[0], t.lexpos))
